@@ -51,7 +51,7 @@ ASSUMPTIONS["C16"] = [
     "also scaled down, so that the thickness of a generated set stays above ~1e-7",
     "trimesh documents the absolute tol.zero=1e-13 on cross products below which a face has no normal (face_normals returns a "
     "zero vector): 3-D sets whose hull has a well-shaped face (height/longest edge >= 1e-3) with |cross| <= 4e-13, i.e. sets "
-    "below ~1e-6 across or needles with such end faces, are skipped (oriented_bounds raises 'Points must be coplanar' there)",
+    "below ~1e-6 across or needles with such end faces, and sets most of whose hull faces are below it, are skipped (oriented_bounds raises 'Points must be coplanar' there)",
     "exactly coplanar 3-D input (class planar3, tested in-tree by test_obb_coplanar_points) makes convex_hull fall back to "
     "qhull 'QJ' (joggled input, seeded from the clock inside qhull): boxes of that class get an extra allowance of "
     "1.2e6*eps*M (qh_JOGGLEdefault=30000 x DISTround) and the outcome of such a case may differ between two runs",
@@ -135,7 +135,10 @@ class PS:
                 cr = np.linalg.norm(np.cross(e[:, 0], e[:, 1]), axis=1)
                 lmax2 = (e**2).sum(axis=2).max(axis=1)
                 shaped = cr >= 1e-3 * lmax2
-                self.above_zero_tol = bool(not shaped.any() or cr[shaped].min() > 4e-13)
+                below = cr <= 4e-13
+                # ... and so is a hull most of whose faces are below it, whatever their shape (a needle whose long
+                # faces are 3e-5 x 3e-10): there is no normal left to orient a box or a silhouette by
+                self.above_zero_tol = bool(not (shaped & below).any() and below.sum() * 2 <= len(cr))
             except Exception:  # noqa  (coplanar etc.: the other rules decide)
                 pass
 
@@ -353,7 +356,11 @@ def hull_clauses(ps, hull, src, sigbase="C16.hull"):
     W = V - c0
     vol = float(np.einsum("ij,ij->i", W[F[:, 0]], np.cross(W[F[:, 1]], W[F[:, 2]])).sum() / 6.0)
     chk(vol > 0, f"{sigbase}|volume_positive|own|{src}", f"own signed volume {vol:.6e}")
-    chk(float(hull.volume) > 0, f"{sigbase}|volume_positive|reported|{src}", lambda: f"hull.volume {hull.volume}")
+    # Trimesh.volume is integrated about the origin (the accuracy of that integral is C03's subject): products of three
+    # coordinates of size M, one factor of which is a difference of size diam, round to <= 64*eps*M^2*diam. Its sign is
+    # only demanded when the hull's volume (measured above about the bbox centre) exceeds that.
+    if vol > 64 * EPS * ps.M**2 * ps.diam:
+        chk(float(hull.volume) > 0, f"{sigbase}|volume_positive|reported|{src}", lambda: f"hull.volume {hull.volume}")
     # vertices are input points, exactly (qhull returns indices; nothing moves a coordinate)
     inp = {r.tobytes() for r in (P + 0.0)}  # +0.0: -0.0 and 0.0 have different bytes
     missing = [i for i, r in enumerate(V + 0.0) if r.tobytes() not in inp]
